@@ -215,19 +215,22 @@ def phase_case(args):
         names_one = [k[0] for k in r1]
         if names_all != names_one: F("phase.rows", "solve(phase=%r) rows %s != rows of that phase %s" % (ph, names_one[:4], names_all[:4]))
         for nm in names_one:
-            a, b = r1[(nm, ph)], rows.get((nm, ph))
+            a, b = r1.get((nm, ph)), rows.get((nm, ph))
+            if a is None: F("phase.rows", "solve(phase=%r) returned rows of another phase: %s" % (ph, sorted({k_[1] for k_ in r1})[:3])); break
             if b is None: continue
             for c in SHARED + [c for c in ("Parent", "Rail in", "Domain") if c in df.columns and c in d1.columns]:
                 x, y = a[c], b[c]
                 same = (x == y) if isinstance(x, str) or isinstance(y, str) else oracle.close(x, y, 1e-9, 1e-12)
                 if not same: F("phase.values", "solve(phase=%r): %s.%s = %r but the all-phase table has %r" % (ph, nm, c, x, y)); break
-    try:
-        s.solve(phase="no-such-phase")
-        F("phase.unknown", "unknown phase accepted")
-    except ValueError:
-        pass
-    except Exception as e:
-        F("phase.unknown", "unknown phase raised %s instead of ValueError" % type(e).__name__)
+    unknowns = ["no-such-phase"] + [q for ph in m.phases for q in (ph.upper(), ph.capitalize(), ph + " ", " " + ph, ph[:-1]) if q not in m.phases and q != ""]
+    for uq in unknowns[:6]:
+        try:
+            s.solve(phase=uq)
+            F("phase.unknown", "unknown phase %r accepted (defined: %s)" % (uq, list(m.phases)))
+        except ValueError:
+            pass
+        except Exception as e:
+            F("phase.unknown", "unknown phase %r raised %s instead of ValueError" % (uq, type(e).__name__))
     # components without a phase configuration behave as in a system without phases
     bare = {"ops": [op for op in recipe["ops"] if op["op"] != "set_comp_phases"]}
     nop = {"ops": [op for op in bare["ops"] if op["op"] != "set_sys_phases"]}
@@ -306,12 +309,28 @@ def warn_boundary_case(args):
     base = {"ops": [{"op": "system", "comp": {"kind": "Source", "name": "S0", "args": {"vo": pol * 12.0, "rs": 0.0 if pol < 0 else 0.05}}}]}
     tgt = "S0"
     if kind != "Source":
-        sp = gen.comp_spec(rnd, kind, "X", pol, negsign=False)
+        sp = gen.comp_spec(rnd, kind, "X", pol, negsign=False, p_table=0.3)
         if "rt" in sp["args"]: sp["args"]["rt"] = 8.0
+        if kind == "LinReg" and "ig" in sp["args"] and rnd.random() < 0.5:
+            # the deprecated iq spelling, scalar or table: limits apply to such a regulator like to any other
+            ig = sp["args"].pop("ig")
+            if not isinstance(ig, dict) and rnd.random() < 0.6: ig = {"vi": [5.0], "io": [0.0, 0.1, 1.0], "ig": [[1e-3, 2e-3, 3e-3]]}
+            sp["args"]["iq"] = {("iq" if k_ == "ig" else k_): v_ for k_, v_ in ig.items()} if isinstance(ig, dict) else ig
         base["ops"].append({"op": "add_comp", "parent": "S0", "comp": sp}); tgt = "X"
     if kind not in gen.LEAF:
         base["ops"].append({"op": "add_comp", "parent": tgt, "comp": {"kind": "ILoad", "name": "L", "args": {"ii": 0.05}}})
     out = {"hash": _hash([base, idx]), "failures": [], "nontrivial": True, "sample": None, "outcome": None}
+    if rnd.random() < 0.3:
+        # an unrelated component was loaded from a file with tight limits earlier in the session: the documented defaults of everyone else stay
+        import tempfile, os, toml, sysloss.components as C
+        fd, pth = tempfile.mkstemp(suffix=".toml"); os.close(fd)
+        try:
+            with open(pth, "w") as f: toml.dump({"rloss": {"rs": 0.1}, "limits": {k_: [0.0, 1e-9] for k_ in ("vi", "vo", "ii", "io", "pi", "po", "pl", "tr")}}, f)
+            C.RLoss.from_file("other", fname=pth)
+        except Exception:
+            pass
+        finally:
+            os.unlink(pth)
     s, _ = gen.build(base); m = Model.of(base)
     oc, df = _solve_outcome(s, ta=30.0); out["outcome"] = oc
     if oc != "table": return out
@@ -348,7 +367,7 @@ def warn_boundary_case(args):
     # at-max / at-min sit on the boundary up to the solver tolerance: only keys strictly outside / inside by 1 % are asserted
     asserted = {k for k in sub if k in expect} | {k for k in sub if lim.get(k) in ([0.0, 1e6], [-1e6, 1e6])}
     wrong = [k for k in asserted if (k in expect) != (k in got)]
-    stray = [k for k in got if k not in keys]
+    stray = [k for k in got if k not in keys] + [k for k in got if k in keys and k not in sub]       # a key without a configured limit has the documented default [0, 1e6]: never exceeded here
     if wrong or stray:
         out["failures"].append({"key": "warn.boundary", "text": "%s %s limits %s: quantities %s, expected warnings %s, got %s" % (kind, tgt, lim, {k: q[k] for k in sub}, sorted(expect), sorted(got)), "props": ["C09"], "recipe": r2})
     tot = rows2[("System total", "")]["Warnings"]
@@ -484,6 +503,12 @@ def roundtrip_case(args):
         recipe = {"ops": ops, "probes": [rnd.random() < 0.5 for _ in ops]}
     else:
         recipe = gen.random_system(rnd, max_nodes=8, n_sources=(1, 3), p_mux=0.5, p_table=0.4, p_limits=0.6, p_phases=0.5, p_rails=0.4, p_groups=0.4, p_byrail=0.3)
+        if rnd.random() < 0.06:
+            # quantities beyond the documented default limits (1e6): components without a limits argument warn, before and after the round trip
+            recipe = {"ops": [{"op": "system", "comp": {"kind": "Source", "name": "HV", "args": {"vo": 1500.0, "rs": 0.001}}, "group": "", "rail": ""},
+                              {"op": "add_comp", "parent": "HV", "comp": {"kind": "Converter", "name": "DC", "args": {"vo": 800.0, "eff": 0.98}}, "group": "", "rail": ""},
+                              {"op": "add_comp", "parent": "DC", "comp": {"kind": "PLoad", "name": "M", "args": {"pwr": rnd.choice([1.2e6, 2.5e6])}}, "group": "", "rail": ""},
+                              {"op": "add_comp", "parent": "HV", "comp": {"kind": "RLoad", "name": "R", "args": {"rs": 1.0, "limits": {"ii": [0.0, 10.0]}}}, "group": "", "rail": ""}]}
         # limits with only a lower / only an upper bound, applicable and not
         for op in recipe["ops"]:
             if "comp" in op and rnd.random() < 0.3:
@@ -714,8 +739,24 @@ def interp_case(args):
     neg_axis = rnd.random() < 0.2
     tbl = {"vi": [(-v if neg_axis else v) for v in vi], "io": io, key: tb}
     if rnd.random() < 0.2: tbl = dict(tbl, io=[-x for x in io[::-1]], **{key: [r[::-1] for r in tb]})      # current axis written with negative values (strictly increasing): same table by magnitude
+    form_ = rnd.random()
+    if form_ < 0.3:
+        # the same table handed over in other legal container / number forms: tuples, numpy arrays, integer axis values
+        import numpy as np
+        conv = rnd.choice([tuple, np.array, lambda x: np.array(x, dtype=float)])
+        tbl = dict(tbl)
+        which = rnd.sample(["vi", "io", key], rnd.randint(1, 3))
+        if "vi" in which: tbl["vi"] = conv(tbl["vi"])
+        if "io" in which: tbl["io"] = conv(tbl["io"]) if (conv is tuple or nv == 1) else tuple(tbl["io"])      # (a numpy io axis of a 2-D table is refused by the constructor: the flattening repeats the list)
+        if key in which: tbl[key] = np.array(tbl[key]) if conv is not tuple else tuple(tuple(r_) for r_ in tbl[key])
+    elif form_ < 0.45 and not neg_axis:
+        # integer-valued axes written as python ints (as a JSON / TOML file would give them)
+        io_i = sorted(rnd.sample([0, 1, 2, 3, 5, 8], ni)); vi_i = sorted(rnd.sample([2, 3, 5, 9, 12, 24, 48], nv))
+        if vi != sorted(vi): vi_i = vi_i[::-1]
+        io[:] = io_i; vi[:] = vi_i
+        tbl = {"vi": list(vi_i), "io": list(io_i), key: tb}
     spec = {"kind": kind, "name": "X", "args": dict(extra, **{key: tbl})}
-    out = {"hash": _hash(spec), "failures": [], "nontrivial": True, "sample": None, "outcome": "interp"}
+    out = {"hash": _hash([idx, repr(spec)]), "failures": [], "nontrivial": True, "sample": None, "outcome": "interp"}
     def F(k, text): out["failures"].append({"key": k, "text": text, "props": ["C10"], "table": tbl, "component": kind})
     try:
         comp = gen.make_comp(spec)
@@ -815,6 +856,7 @@ def toml_case(args):
     a = copy.deepcopy(sp["args"])
     lim = a.pop("limits", None)
     if cls == "Rectifier": a.setdefault("vdrop", 0.0)
+    if "loss" in a: a["loss"] = bool(a["loss"])         # in a file the flag is a TOML boolean (an integer there is a wrongly typed value)
     if cls == "PMux" and rnd.random() < 0.4: a["rs"] = [0.01, 0.03]
     if cls == "Converter" and isinstance(a["eff"], (int, float)): a["eff"] = float(a["eff"])
     if cls == "LinReg" and rnd.random() < 0.35:
@@ -831,7 +873,10 @@ def toml_case(args):
         doc[TOML_SECTION[cls]].pop(rnd.choice(MANDATORY[cls]))
     elif mode == "wrongtype" and cls != "LinReg":
         k = rnd.choice(list(a) or MANDATORY[cls] or ["rt"])
-        doc[TOML_SECTION[cls]][k] = rnd.choice(["5.0", True, [1.0, 2.0]]) if k not in ("loss",) else "yes"
+        from contracts.ctor import _PINNED_TYPES
+        typ_ = _PINNED_TYPES.get(cls, {}).get(k, [])
+        cands = [w for w in ("5.0", True, False, [1.0, 2.0], 0, 1, 0.0) if type(w).__name__ not in typ_] or ["5.0"]
+        doc[TOML_SECTION[cls]][k] = rnd.choice(cands) if k not in ("loss",) else rnd.choice(["yes", 0, 1, 0.0])
         if cls in ("PMux", "Rectifier") and k == "rs" and isinstance(doc[TOML_SECTION[cls]][k], list): doc[TOML_SECTION[cls]][k] = "0.1"
     else:
         mode = "ok"
@@ -1051,8 +1096,31 @@ def battlife_case(args):
     recipe = gen.random_system(rnd, max_nodes=6, n_sources=(1, 2), p_mux=0.2, p_phases=0.5, p_neg=0.0, p_dead_source=0.0, p_table=0.2)
     out = {"hash": _hash([recipe, idx]), "failures": [], "nontrivial": True, "sample": None, "outcome": None}
     def F(key, text, pr=("C18",)): out["failures"].append({"key": key, "text": text, "props": list(pr), "recipe": recipe})
+    src_ops = [op for op in recipe["ops"] if "comp" in op and op["comp"]["kind"] == "Source"]
+    batt = rnd.choice(src_ops)["comp"]["name"]
+    if rnd.random() < 0.12:
+        # the battery is declared with a placeholder voltage of 0 V: its model supplies the real one
+        for op in src_ops:
+            if op["comp"]["name"] == batt: op["comp"]["args"]["vo"] = 0.0
     s, _ = gen.build(recipe); m = Model.of(recipe)
-    srcs = m.sources(); batt = rnd.choice(srcs)
+    if rnd.random() < 0.3:
+        # an earlier battery run, then a load moved to another parent under the same name (no report in between): the run below sees the new tree
+        loads = [n for n in m.nodes if m.nodes[n].type == "LOAD" and len(m.nodes[n].parents) == 1]
+        hosts = [n for n in m.nodes if m.nodes[n].type not in ("LOAD",) and m.nodes[n].kind != "PMux"]
+        if loads and len(hosts) > 1:
+            L = rnd.choice(loads); Q = rnd.choice([h for h in hosts if h != m.nodes[L].parents[0]])
+            st0, pf0, df0 = _battery_model(rnd, 0.001, abs(s._g[s._g.attrs["nodes"][batt]]._params["vo"]) or 3.7, 0.02, 3)
+            try:
+                import io as _io0, contextlib as _cl0
+                with _cl0.redirect_stderr(_io0.StringIO()): s.batt_life(batt, cutoff=0.1, pfunc=pf0, dfunc=df0)
+            except Exception: pass
+            spec = [op["comp"] for op in recipe["ops"] if "comp" in op and op["comp"]["name"] == L][-1]
+            mv = [{"op": "del_comp", "name": L, "del_childs": True}, {"op": "add_comp", "parent": Q, "comp": copy.deepcopy(spec), "group": "", "rail": ""}]
+            try:
+                for op in mv: gen.apply_op(s, op)
+                recipe = {"ops": recipe["ops"] + mv}; m = Model.of(recipe)
+            except Exception:
+                s, _ = gen.build(recipe); m = Model.of(recipe)
     bnode = s._g[s._g.attrs["nodes"][batt]]
     vo0, rs0 = bnode._params["vo"], bnode._params["rs"]
     big = rnd.random() < 0.15
@@ -1108,13 +1176,16 @@ def battlife_case(args):
     while alive and k < len(calls) + 2:
         ph = phases[k % len(phases)]
         # independent steady state for the battery's present voltage and impedance in that phase
-        bnode._params["vo"], bnode._params["rs"] = states[-1][1], states[-1][2]
+        # (a system built from scratch with the battery's present voltage and impedance as its source parameters - not the analysed object)
+        r_ref = copy.deepcopy(recipe)
+        for op in r_ref["ops"]:
+            if "comp" in op and op["comp"]["name"] == batt and op["op"] in ("system", "add_source"):
+                op["comp"]["args"]["vo"], op["comp"]["args"]["rs"] = states[-1][1], states[-1][2]
         try:
-            dfp = s.solve(phase=ph, maxiter=500) if ph else s.solve(maxiter=500)
+            s_ref, _ = gen.build(r_ref, strict=False)
+            dfp = s_ref.solve(phase=ph, maxiter=500) if ph else s_ref.solve(maxiter=500)
         except (RuntimeError, ValueError):
             out["outcome"] = "no steady state at some step (case skipped)"; return out
-        finally:
-            bnode._params["vo"], bnode._params["rs"] = vo0, rs0
         rows, _ = oracle.rows_by_key(dfp)
         ib = float(rows[(batt, ph)]["Iout (A)"])
         dt = m.phases[ph] if ph else (cap0 / ib * 3.6 if ib else float("inf"))
@@ -1159,7 +1230,12 @@ def retime_case(args):
     oc, df = _solve_outcome(s, energy=True); out["outcome"] = oc
     if oc != "table": return out
     new = {k: v * rnd.choice([0.1, 3.0, 7.5]) for k, v in m.phases.items()}
-    s.set_sys_phases(new)
+    if rnd.random() < 0.5 and hasattr(s, "get_sys_phases"):
+        cur = s.get_sys_phases()            # read - modify - write back with the object the getter handed out
+        for k, v in new.items(): cur[k] = v
+        s.set_sys_phases(cur)
+    else:
+        s.set_sys_phases(new)
     oc2, df2 = _solve_outcome(s, energy=True)
     r2 = copy.deepcopy(recipe)
     for op in r2["ops"]:
@@ -1203,7 +1279,16 @@ def reconfig_case(args):
     oc, df = _solve_outcome(s); out["outcome"] = oc
     extra = []
     pn = list(m.phases) if m.phases else []
-    for _ in range(rnd.randint(1, 3)):
+    if rnd.random() < 0.3:
+        # a phase leaves the plan and comes back: configurations naming it mean again what they meant
+        full = {"a": 4.0, "b": 6.0, "c": 2.0}; tgt = rnd.choice(list(m.nodes)); conf = _phase_conf_for(rnd, m.nodes[tgt].kind, ["a", "c"])
+        seq = [{"op": "set_sys_phases", "phases": dict(full)}] + ([{"op": "set_comp_phases", "name": tgt, "conf": conf}] if conf is not None else []) + \
+              [{"op": "set_sys_phases", "phases": {"a": 4.0, "b": 6.0}}, {"op": "set_sys_phases", "phases": dict(full)}]
+        for op in seq:
+            try: gen.apply_op(s, op); extra.append(op)
+            except Exception: pass
+        pn = list(full)
+    for _ in range(rnd.randint(1, 3) if not extra else 0):
         r = rnd.random()
         if r < 0.25 or not pn:
             ph = rnd.choice([{"a": 4.0, "b": 6.0}, {"a": 1.0, "b": 2.0, "c": 3.0}, {"sleep": 100.0, "rx": 2.0, "tx": 1.0}, {"x": 5.0, "y": 1.0}])
@@ -1241,3 +1326,21 @@ def reconfig_family(seed, n, props):
     return summarize(run_pool(reconfig_case, [(seed, i, props) for i in range(n)]),
                      "random systems: solve(), then only set_sys_phases / set_comp_phases calls (new plans, empty lists, names no phase carries, zero-valued entries), solve() again; compared with a fresh system built with the final configuration and with the table oracle",
                      "trees <= 7 components, 1-3 configuration calls")
+
+
+# ============================================================================================================ C04 with loose tolerances
+def loose_dead_case(args):
+    """dead rails are EXACT statements (0 V, 0 A, 0 W): they hold for every legal solver tolerance, not only the defaults"""
+    from .runner import table_case
+    seed, idx = args
+    rnd = _rnd(seed, idx)
+    kw = dict(itol=rnd.choice([1e-3, 1e-2, 1e-4]), vtol=rnd.choice([1e-3, 1e-5, 1e-2]))
+    r = table_case((seed, idx, dict(p_dead_source=0.4, p_phases=0.8, p_mux=0.4, p_ghost=0.3, max_nodes=7), ["C04"], kw))
+    r["failures"] = [f for f in r["failures"] if f["key"] in ("row.dead", "row.inactive", "gen.build")]
+    return r
+
+
+def loose_dead_family(seed, n):
+    return summarize(run_pool(loose_dead_case, [(seed, i) for i in range(n)]),
+                     "random systems with dead sources / inactive elements / micro-amp sleep loads solved with loose tolerances (itol, vtol in 1e-5..1e-2): rows below a dead rail are exactly zero, inactive elements draw exactly their sleep current",
+                     "trees <= 7 components")
